@@ -15,6 +15,15 @@ requests (one per line):
   derivedarea <maxArea> [sibAreas]                                                -> area
   getdimtc <sys> [factorAtTc|_ per component] <i> <key>     getDimension(key, Tc=T)   -> value | reject
   <sys> := comp('|'comp)*   comp := <S|F>;<factor|_>;[expdim,..];name=val,name=@j.key,...
+  hist <Shape|U> <name=val,..> <height|_> <sym> <tin> <t0> [nd..] [w..] [mat,..] [op,..]
+       the component state machine with caches (Model/Thermal.lean `run`); mat := <S|L|C>;t~pct~rho;t~pct~rho;..
+       (S solid, L Fluid, C Custom; the table must hold every temperature of the request);
+       op := T~t | M~matIndex | H~key~v (hot set) | K~key~v (cold set) | N~[nd..] | qF | qD~key | qDc~key | qDT~key~Tc
+             | qA | qAc | qAT~Tc | qV | qM | qN            -> [out,..]  out := [rat,..] | reject
+  bhist <transitive T|F> <height> <maxArea> [mat,..] <comp('|'comp)*> [bop,..]
+       a block of linked components with caches (Model/Thermal.lean `brun`); the derived shape is implicit;
+       comp := <Shape|U>;matIndex;tin;t0;[nd..];[w..];name=val,name=@j.key,..
+       bop := T~i~t | M~i~matIndex | H~i~key~v | K~i~key~v | HR~i~key~v | KR~i~key~v (retainLink=True) | qD~i~key | qDc~i~key | qA~i | qV~i | qM~i | qDA | qDV
 -/
 
 def parseKind? (s : String) : Option Kind :=
@@ -42,14 +51,157 @@ def parseComp? (s : String) : Option Comp :=
 
 def parseSys? (s : String) : Option (List Comp) := (s.splitOn "|").mapM parseComp?
 
-def valuation (names : List String) (vals : List Rat) : String → Rat :=
-  fun k => match (names.zip vals).find? (fun p => p.1 = k) with
-    | some p => p.2
-    | none => 0
-
 def pctOf (l : List Rat) : Nat → Rat := fun i => l.getD i 0
 
+/-- exact values of Python's `math.pi`, `math.sqrt(3.0)` -/
+def pyPi : Rat := mkRat 884279719003555 281474976710656
+def pySqrt3 : Rat := mkRat 7800463371553963 4503599627370496
+
+def tableFn (tab : List (Rat × Rat × Rat)) (pick : Rat × Rat → Rat) : Rat → Rat :=
+  fun t => match tab.find? (fun r => r.1 = t) with
+    | some r => pick r.2
+    | none => 0
+
+def parseMat? (s : String) : Option (Mat Rat × List Rat) :=
+  match s.splitOn ";" with
+  | k :: rows => do
+    let kl ← if k = "S" then some (Kind.solid, false) else if k = "L" then some (Kind.fluid, true)
+      else if k = "C" then some (Kind.fluid, false) else none
+    let tab ← rows.mapM (fun r => match r.splitOn "~" with
+      | [t, p, rho] => do
+        let t ← parseRat? t
+        let p ← parseRat? p
+        let rho ← parseRat? rho
+        some (t, p, rho)
+      | _ => none)
+    some ({ kind := kl.1, liquid := kl.2, pct := tableFn tab (·.1), rho := tableFn tab (·.2) }, tab.map (·.1))
+  | _ => none
+
+/-- op and the temperatures it mentions -/
+def parseOp? (mats : List (Mat Rat)) (s : String) : Option (Op Rat × List Rat) :=
+  match s.splitOn "~" with
+  | ["T", t] => (parseRat? t).map (fun t => (.setTemp t, [t]))
+  | ["M", i] => do
+    let i ← parseNat? i
+    let m ← mats[i]?
+    some (.setMat m, [])
+  | ["H", k, v] => (parseRat? v).map (fun v => (.setDim k v false, []))
+  | ["K", k, v] => (parseRat? v).map (fun v => (.setDim k v true, []))
+  | ["N", nd] => (parseRatList? nd).map (fun nd => (.setND nd, []))
+  | ["qF"] => some (.qFactor, [])
+  | ["qD", k] => some (.qDim k false, [])
+  | ["qDc", k] => some (.qDim k true, [])
+  | ["qDT", k, t] => (parseRat? t).map (fun t => (.qDimTc k t, [t]))
+  | ["qA"] => some (.qArea false, [])
+  | ["qAc"] => some (.qArea true, [])
+  | ["qAT", t] => (parseRat? t).map (fun t => (.qAreaTc t, [t]))
+  | ["qV"] => some (.qVolume, [])
+  | ["qM"] => some (.qMass, [])
+  | ["qN"] => some (.qND, [])
+  | _ => none
+
+def parseCold? (s : String) : Option (List (String × Rat)) :=
+  (s.splitOn ",").mapM (fun kv => match kv.splitOn "=" with
+    | [k, v] => (parseRat? v).map (fun q => (k, q))
+    | _ => none)
+
+def histAnswer (sh cold h sym tin t0 nds ws mats ops : String) : Option String := do
+  let shape ← if sh = "U" then some none else (Shape.ofName? sh).map some
+  let cold ← parseCold? cold
+  let height ← if h = "_" then some none else (parseRat? h).map some
+  let sym ← parseRat? sym
+  let tin ← parseRat? tin
+  let t0 ← parseRat? t0
+  let nd ← parseRatList? nds
+  let w ← parseRatList? ws
+  let ms ← parseList? parseMat? mats
+  let m0 ← ms[0]?
+  let ops ← parseList? (parseOp? (ms.map (·.1))) ops
+  -- every temperature of the request must be in every material's table (never a silent default)
+  let temps := tin :: t0 :: (ops.map (·.2)).flatten
+  if ms.any (fun m => temps.any (fun t => !m.2.contains t)) then none else
+  if nd.length ≠ w.length ∨ sym = 0 then none else
+  let e : Env Rat := { same := fun a b => decide ((if a ≤ b then b - a else a - b) ≤ mkRat 1 10000000000),
+                       pi := pyPi, sqrt3 := pySqrt3, sqrtF := sqrtApprox, height := height, sym := sym, w := w }
+  let s : CState Rat := { mat := m0.1, tin := tin, temp := t0, nd := nd, shape := shape, cold := cold,
+                          vol := none, stale := false }
+  some (showList (showOpt (showList showRat)) (run e s (ops.map (·.1))).2)
+
+def parseBComp? (mats : List (Mat Rat)) (s : String) : Option (BComp Rat × List Rat) :=
+  match s.splitOn ";" with
+  | [sh, mi, tin, t0, nds, ws, ds] => do
+    let shape ← if sh = "U" then some none else (Shape.ofName? sh).map some
+    let mi ← parseNat? mi
+    let m ← mats[mi]?
+    let tin ← parseRat? tin
+    let t0 ← parseRat? t0
+    let nd ← parseRatList? nds
+    let w ← parseRatList? ws
+    let dims ← (ds.splitOn ",").mapM parseDim?
+    if nd.length ≠ w.length then none else
+    some ({ mat := m, tin := tin, temp := t0, nd := nd, w := w, shape := shape, dims := dims, vol := none }, [tin, t0])
+  | _ => none
+
+def parseBOp? (mats : List (Mat Rat)) (s : String) : Option (BOp Rat × List Rat) :=
+  match s.splitOn "~" with
+  | ["T", i, t] => do
+    let i ← parseNat? i
+    let t ← parseRat? t
+    some (.setTemp i t, [t])
+  | ["M", i, m] => do
+    let i ← parseNat? i
+    let m ← parseNat? m
+    let m ← mats[m]?
+    some (.setMat i m, [])
+  | ["H", i, k, v] => do
+    let i ← parseNat? i
+    let v ← parseRat? v
+    some (.setDim i k v false, [])
+  | ["K", i, k, v] => do
+    let i ← parseNat? i
+    let v ← parseRat? v
+    some (.setDim i k v true, [])
+  | ["HR", i, k, v] => do
+    let i ← parseNat? i
+    let v ← parseRat? v
+    some (.setDimRetain i k v false, [])
+  | ["KR", i, k, v] => do
+    let i ← parseNat? i
+    let v ← parseRat? v
+    some (.setDimRetain i k v true, [])
+  | ["qD", i, k] => (parseNat? i).map (fun i => (.qDim i k false, []))
+  | ["qDc", i, k] => (parseNat? i).map (fun i => (.qDim i k true, []))
+  | ["qA", i] => (parseNat? i).map (fun i => (.qArea i, []))
+  | ["qV", i] => (parseNat? i).map (fun i => (.qVolume i, []))
+  | ["qM", i] => (parseNat? i).map (fun i => (.qMass i, []))
+  | ["qDA"] => some (.qDerivedArea, [])
+  | ["qDV"] => some (.qDerivedVolume, [])
+  | _ => none
+
+def bhistAnswer (tr h maxA mats comps ops : String) : Option String := do
+  let tr ← parseBool? tr
+  let h ← parseRat? h
+  let maxA ← parseRat? maxA
+  let ms ← parseList? parseMat? mats
+  let cs ← (comps.splitOn "|").mapM (parseBComp? (ms.map (·.1)))
+  let ops ← parseList? (parseBOp? (ms.map (·.1))) ops
+  let temps := (cs.map (·.2)).flatten ++ (ops.map (·.2)).flatten
+  if ms.any (fun m => temps.any (fun t => !m.2.contains t)) then none else
+  if h = 0 then none else
+  let e : BEnv Rat := { same := fun a b => decide ((if a ≤ b then b - a else a - b) ≤ mkRat 1 10000000000),
+                        pi := pyPi, sqrt3 := pySqrt3, sqrtF := sqrtApprox, h := h, maxArea := maxA, sym := 1, transitive := tr }
+  let b : BState Rat := { comps := cs.map (·.1), stale := true, dArea := none, dVol := none }
+  some (showList (showOpt (showList showRat)) (brun e b (ops.map (·.1))).2)
+
 def answer : List String → String
+  | ["bhist", tr, h, maxA, mats, comps, ops] =>
+    match bhistAnswer tr h maxA mats comps ops with
+    | some r => r
+    | none => "bad-op"
+  | ["hist", sh, cold, h, sym, tin, t0, nds, ws, mats, ops] =>
+    match histAnswer sh cold h sym tin t0 nds ws mats ops with
+    | some r => r
+    | none => "bad-op"
   | ["area", sh, pi, s3, ds] =>
     match Shape.ofName? sh, parseRat? pi, parseRat? s3, parseRatList? ds with
     | some s, some pi, some s3, some ds =>
